@@ -252,6 +252,54 @@ func vpH_C16_list_dups() {
 	vpReach("end")
 }
 
+// the same addressee mentioned in two different addressing lists is flattened in both
+func vpH_C16_cross_lists() {
+	id := vpMkIRI('a')
+	other := vpMkIRI('b')
+	mk := func() Item {
+		if vpBool() {
+			return &Actor{ID: id, Type: PersonType}
+		}
+		return id
+	}
+	lists := []string{"To", "Bto", "CC", "BCC", "Audience"}
+	l1 := vpChoice(5)
+	l2 := vpChoice(5)
+	if l1 == l2 {
+		vpReach("end")
+		return
+	}
+	ti := vpTypeIndex(vpC16Types[vpChoice(len(vpC16Types))])
+	x := vpNew(ti)
+	vpSetField(x, 0, 0, 'i')
+	first, second := ItemCollection{mk(), other}, ItemCollection{other, mk()}
+	set := func(name string, col ItemCollection) {
+		_ = OnObject(x, func(o *Object) error {
+			switch name {
+			case "To":
+				o.To = col
+			case "Bto":
+				o.Bto = col
+			case "CC":
+				o.CC = col
+			case "BCC":
+				o.BCC = col
+			case "Audience":
+				o.Audience = col
+			}
+			return nil
+		})
+	}
+	set(lists[l1], first)
+	set(lists[l2], second)
+	FlattenProperties(x)
+	g1, g2 := vpGetListField(x, lists[l1]), vpGetListField(x, lists[l2])
+	cell := lists[l1] + "+" + lists[l2]
+	vpAssert("cross/first-list/"+cell, len(g1) == 2 && vpEqItem(g1[0], id) && vpEqItem(g1[1], other))
+	vpAssert("cross/second-list/"+cell, len(g2) == 2 && vpEqItem(g2[0], other) && vpEqItem(g2[1], id))
+	vpReach("end")
+}
+
 // the direct entry points agree with FlattenProperties
 func vpH_C16_direct() {
 	act := &Activity{ID: vpMkIRI('i'), Type: LikeType, Actor: &Actor{ID: vpMkIRI('a'), Type: PersonType}, Object: &Object{ID: vpMkIRI('o'), Type: NoteType}}
